@@ -512,8 +512,11 @@ def e_extremes(d, r, lit):
         nm = r.choice(["__class__", "self", "kind", "name", "a.b", "with space", "日本語", "𐐀𐐁", "", "0", "None", "id_"])
         d["structures"].append({"name": _fresh(r, "EvoOdd"), "properties": [{"name": nm, "type": {"kind": "base", "name": "string"}}, {"name": nm + "2", "type": {"kind": "reference", "name": r.choice(names) if names else "X"}}]})
     else:
-        odd = r.choice(["", " ", "\u0000", "\ud800", "line\nbreak", "tab\t", "\u2028", "\\", '"', "'", "null", "true", "1", "{}"])
+        odd = r.choice(["", " ", "\u0000", "\ud800", "line\nbreak", "tab\t", "\u2028", "\\", '"', "'", "null", "true", "1", "{}",
+                        # not in Unicode normal form C / compatibility characters / case and width variants
+                        "Cafe\u0301", "\u212b", "\u2126", "\uf900", "\ufb01", "\uff21", "\u00c5", "ß", "İ", "a\u0308\u0323", " padded ", "UPPER", "Title Case"])
         d["typeAliases"].append({"name": _fresh(r, "EvoStr"), "type": {"kind": "stringLiteral", "value": odd}, "documentation": odd, "since": odd})
+        d["enumerations"].append({"name": _fresh(r, "EvoStrEnum"), "type": {"kind": "base", "name": "string"}, "values": [{"name": "Odd", "value": odd}, {"name": odd or "Empty", "value": "plain"}]})
     return f"extremes:{kind}"
 
 
